@@ -74,7 +74,7 @@ func families(run *vk.Run) []*family {
 	}
 	fa := &family{name: "S-abs", s: abs, u: fedlab.SAbsUniverse(abs), schema: mustSchema(abs.SDL())}
 	fa.layout = fedlab.ByType(abs, 2, func(r fedlab.FieldRef) int {
-		if r.Type == "Book" || r.Field == "search" {
+		if r.Type == "Book" || r.Field == "search" || r.String() == "Author.name" {
 			return 1
 		}
 		return 0
@@ -83,6 +83,11 @@ func families(run *vk.Run) []*family {
 		{"nodes", `{ nodes { id __typename ... on Author { name books { title } } ... on Book { title author { name } } } }`, ``},
 		{"node var", `query Q($i: ID!) { node(id: $i) { id ... on Book { title related { __typename ... on Author { name } } } } }`, `{"i":"b1"}`},
 		{"node renamed", `query Q($j: ID!) { node(id: $j) { id ... on Book { title related { __typename ... on Author { name } } } } }`, `{"j":"a1"}`},
+		// the same entity field at one response path twice: directly on the interface
+		// and again under a fragment on one implementer (de-duplication of a scoped
+		// with an unscoped fetch)
+		{"by twice", `{ feed { title by { name } ... on Post { by { name } } } }`, ``},
+		{"by twice, on Clip", `{ feed { by { name } ... on Clip { by { name } } } }`, ``},
 		{"search+feed", `{ search { __typename ... on Author { name latest { title } } ... on Book { title } } feed { title ... on Post { text by { name } } } }`, ``},
 	}
 	fr := &family{name: "S-req", s: req, u: fedlab.SReqUniverse(req), schema: mustSchema(req.SDL())}
@@ -107,18 +112,48 @@ func families(run *vk.Run) []*family {
 		{"item renamed", `query Q($k: ID!) { item(id: $k) { sku shipping maker { items { volume } } } }`, `{"k":"i2"}`},
 		{"boxes", `{ boxes { size content { price shipping } } makers { label items { sku } } }`, ``},
 	}
-	for _, f := range []*family{fc, fa, fr} {
+	// S-keys diamond: four subgraphs, no direct jump from the entry (sg0) to the
+	// owner of stock (sg3), two equally short routes through different
+	// intermediate subgraphs and different keys: sg0 -sku-> sg1 -upc-> sg3 and
+	// sg0 -sku-> sg2 -"id sku"-> sg3 (a tie the planner must break the same way
+	// every time)
+	keys := fedlab.SKeys()
+	fk := &family{name: "S-keys", s: keys, u: fedlab.SKeysUniverse(keys), schema: mustSchema(keys.SDL())}
+	fk.layout = fedlab.ByType(keys, 4, func(r fedlab.FieldRef) int {
+		switch r.String() {
+		case "Query.newest":
+			return 1
+		case "Product.price":
+			return 2
+		case "Product.stock":
+			return 3
+		}
+		return 0
+	}, "diamond4")
+	fk.layout.SetKeyUse("Product", 0, &fedlab.KeyUse{Keys: []string{"sku"}})
+	fk.layout.SetKeyUse("Product", 1, &fedlab.KeyUse{Keys: []string{"sku", "upc"}})
+	fk.layout.SetKeyUse("Product", 2, &fedlab.KeyUse{Keys: []string{"sku", "id sku"}})
+	fk.layout.SetKeyUse("Product", 3, &fedlab.KeyUse{Keys: []string{"upc", "id sku"}})
+	fk.alpha = []request{
+		{"products stock", `{ products { name stock } }`, ``},
+		{"product var", `query Q($s: String!) { product(sku: $s) { name price stock } }`, `{"s":"s2"}`},
+		{"product renamed", `query Q($t: String!) { product(sku: $t) { name price stock } }`, `{"t":"s3"}`},
+		{"newest", `{ newest { name stock price } }`, ``},
+	}
+	for _, f := range []*family{fc, fa, fr, fk} {
 		f.ops = fedlab.GenOps(fedlab.GenConfig{Schema: f.schema, Widths: vk.Pick(run, []int{1, 2, 1}, []int{1, 2, 2}), ArgMenu: func(t, fl string) [][]fedlab.ArgUse {
 			switch t + "." + fl {
 			case "Query.user", "Query.item":
 				return [][]fedlab.ArgUse{{{Name: "id", Value: `"u3"`}}}
+			case "Query.product":
+				return [][]fedlab.ArgUse{{{Name: "sku", Value: `"s2"`}}}
 			case "Query.node":
 				return [][]fedlab.ArgUse{{{Name: "id", Value: `"b1"`}}}
 			}
 			return nil
 		}}, "query")
 	}
-	return []*family{fc, fa, fr}
+	return []*family{fc, fa, fr, fk}
 }
 
 // ---- controlled map order
